@@ -803,6 +803,8 @@ pub fn expand_env(sh: &Shell, tokens: &mut types::Tokens) {
 
         let mut _token = token.clone();
         while env_in_token(&_token) {
+            #[cfg(cicada_verif)]
+            crate::verif::tick("expand_env");
             _token = expand_one_env(sh, &_token);
         }
         buff.push((idx, _token));
@@ -834,6 +836,8 @@ fn do_command_substitution_for_dollar(sh: &mut Shell, tokens: &mut types::Tokens
             if !should_do_dollar_command_extension(&line) {
                 break;
             }
+            #[cfg(cicada_verif)]
+            crate::verif::tick("cmd_subst_dollar");
 
             let ptn_cmd = r"\$\((.+)\)";
             let cmd = match libs::re::find_first_group(ptn_cmd, &line) {
@@ -932,6 +936,8 @@ fn do_command_substitution_for_dot(sh: &mut Shell, tokens: &mut types::Tokens) {
             let mut _output = String::new();
             let mut _tail = String::new();
             loop {
+                #[cfg(cicada_verif)]
+                crate::verif::tick("cmd_subst_backquote");
                 if !re.is_match(&_token) {
                     if !_token.is_empty() {
                         _item = format!("{}{}", _item, _token);
